@@ -26,7 +26,12 @@ var repoRoot = func() string {
 	return "/repo"
 }()
 
-var verifRoot = "/verif"
+var verifRoot = func() string {
+	if r := os.Getenv("GCV_VERIF"); r != "" {
+		return r // development only: a scratch copy of /verif's contracts, checks and corpus; registered commands never set this
+	}
+	return "/verif"
+}()
 
 type Engine struct {
 	localMu    sync.Mutex
@@ -189,6 +194,13 @@ func loadEngine(dir string, overlay map[string][]byte) (*Engine, error) {
 	ext, _ := filepath.Glob(filepath.Join(verifRoot, "contracts", "external", "*.spec"))
 	sort.Strings(specs)
 	sort.Strings(ext)
+	if filepath.Base(dir) == "cmd" {
+		// module cmd builds against the released go-car/v2 from the module cache: the few assumed contracts on that
+		// API live apart, so that they can never shadow (or stand in for) a contract on /repo/v2's own code
+		extCmd, _ := filepath.Glob(filepath.Join(verifRoot, "contracts", "external_cmd", "*.spec"))
+		sort.Strings(extCmd)
+		ext = append(ext, extCmd...)
+	}
 	for _, f := range append(specs, ext...) {
 		cs, err := readContractFile(f, "", e.voc)
 		if err != nil {
